@@ -1422,20 +1422,20 @@ class Package:
                 continue
             for k in c.keywords:
                 if k.arg == "out":
-                    emit(c, k.value, "", "MutCall", text)
+                    emit(c, k.value, last_attr(k.value), "MutCall", text)
             if isinstance(f, ast.Attribute):
                 recv = f.value
                 if self.external_module_root(fn, recv) and isinstance(recv, ast.Name):
                     # library function np.f(x, ...)
                     if f.attr in FUNC_MUTATORS and c.args:
-                        emit(c, c.args[0], "", "MutCall", text)
+                        emit(c, c.args[0], last_attr(c.args[0]), "MutCall", text)
                     if f.attr in GLOBAL_STATE_FUNCS:
                         emit(c, recv, f.attr, "MutCall", text)
                     continue
                 if self.external_module_root(fn, recv):
                     # np.random.shuffle(x), sys.path.append(x), os.environ.update(...)
                     if f.attr in FUNC_MUTATORS and c.args:
-                        emit(c, c.args[0], "", "MutCall", text)
+                        emit(c, c.args[0], last_attr(c.args[0]), "MutCall", text)
                     if f.attr in GLOBAL_STATE_FUNCS or f.attr in MUTATING_METHODS or f.attr in SETATTR_METHODS:
                         emit(c, recv, recv.attr if isinstance(recv, ast.Attribute) else "", "MutCall", text)
                     continue
@@ -1498,6 +1498,13 @@ class Package:
             seen.add(key)
             out.append((root, attr, kind, text, prov))
         return out
+
+
+def last_attr(e):
+    """attribute that names the object e (x.a, x.a[i], x.a.loc[..] -> "a"; x, x[i] -> "")"""
+    while isinstance(e, ast.Subscript) or (isinstance(e, ast.Attribute) and e.attr in LOC_ATTRS):
+        e = e.value
+    return e.attr if isinstance(e, ast.Attribute) else ""
 
 
 def is_mask_index(s):
